@@ -13,7 +13,8 @@ def m(id, props, file, old, new, note='', more=()):
 
 S, MO, H = 'bubus/service.py', 'bubus/models.py', 'bubus/helpers.py'
 # ---- C01
-m('c01_drop_result_filter', 'C01', S, "            elif existing_result.completed_at is not None:\n", "            elif False and existing_result.completed_at is not None:\n", 're-dispatch of a completed event re-runs handlers')
+# (the single-site 'c01_drop_result_filter' - `elif False and existing_result.completed_at is not None` in _would_create_loop - is
+#  equivalent: execute_handler refuses a handler that already has a started result; see the two-site c01_rerun_on_redispatch)
 m('c01_no_wildcard', 'C01', S, "        applicable_handlers.extend(self.handlers.get('*', []))\n", "        applicable_handlers.extend(self.handlers.get('*', []) if len(event.event_path) < 2 else [])\n", "wildcard handlers skipped for forwarded events")
 # ---- C02
 m('c02_lifo_inline', 'C02', MO, "                                    event = bus.event_queue.get_nowait()\n", "                                    event = bus.event_queue._queue.pop(); bus.event_queue._queue.appendleft(event); event = bus.event_queue.get_nowait()\n", 'inline drain takes the TAIL of the queue')
